@@ -30,3 +30,13 @@ Qed.
 From VProofs Require Import RatingProofs.
 Lemma tie_policy_exit : forall passed, policy_exit passed = src_policy_exit passed.
 Proof. reflexivity. Qed.
+
+(* the worst-finding theorem, restated for the fold of the status update as it reads in the current source over the level texts of the notes *)
+Lemma src_status_fold : forall ls st, status_fold st ls = fold_left (fun s l => src_status_step s (level_text l)) ls st.
+Proof.
+  induction ls as [|l ls IH]; intros st; [reflexivity|]. unfold status_fold in *. cbn [fold_left]. rewrite tie_status_step. apply IH.
+Qed.
+Lemma src_status_fold_spec : forall ls,
+  let f := fold_left (fun s l => src_status_step s (level_text l)) ls exit_GOOD in
+  (f = exit_FAILURE <-> In LFail ls) /\ (f = exit_WARNING <-> ~ In LFail ls /\ In LWarn ls) /\ (f = exit_GOOD <-> ~ In LFail ls /\ ~ In LWarn ls).
+Proof. intros ls. cbv zeta. rewrite <- src_status_fold. apply status_fold_spec. Qed.
